@@ -4,7 +4,7 @@
 # (compiles, suite of the touched package passes, demo fails with / passes without), runs our checks.
 export GOFLAGS=-mod=mod GOPROXY=off GOSUMDB=off GOTOOLCHAIN=local
 id=$1; name=$2; shift 2
-w=/tmp/seed/$id; d=/verif/seeded/$name; mkdir -p $d
+w=${SEED_DIR:-/tmp/seed}/$id; d=/verif/seeded/$name; mkdir -p $d
 cd $w || exit 1
 git diff -- . ':!*_verif.go' ':!*_test.go' > $d/patch.diff
 demo=$(git status --porcelain | grep '^??' | awk '{print $2}' | grep '_test.go$' | head -5)
